@@ -264,6 +264,9 @@ func init() {
 					if len(cur) <= 2 {
 						for _, k := range []string{"Logger+layout", "AsyncLogger", "AsyncLogger+layout"} {
 							yield(chainCase{Kind: k, Logger: "INFO", Refs: append([]string(nil), cur...)})
+							// (a logger range that contains NONE and everything up to user levels above MAX: events at the
+							// extreme codes reach the references' filters on this path too)
+							yield(chainCase{Kind: k, Logger: "", Refs: append([]string(nil), cur...)})
 						}
 					}
 				}
